@@ -36,12 +36,16 @@ type c16Case struct {
 	// queue's 1000 slots, which fill while the phase runs); packet-per-datagram exactness is then not required,
 	// only: nothing corrupted, nothing twice, and published(mirror on) == published(mirror off)
 	Flood int `json:"flood,omitempty"`
+	// Toggle ("off-on" | "on-off", ipfix): a further run in which templates are learned in one request under the
+	// first mirror setting and data for them arrives in a second request (template cache kept, as over a restart
+	// with a cache file) under the other setting: mirroring must not change what is decoded and published
+	Toggle string `json:"toggle,omitempty"`
 }
 
 const c16Rule = "case = protocol (ipfix | sflow), max-udp-size 64..65507 (biased to 1500; the other protocols' size setting drawn independently), 1..4 workers, IPv4 exporter address in 4-octet or 16-octet form, mirror target 127.x.y.z:port, " +
 	"1..8 datagrams with lengths biased to {0, 1, size-29, size-28, size-27, size-1, size} (valid protocol messages and arbitrary octets); the real worker queues them for mirroring and the real mirror function emits them; " +
 	"oracle on the IP packets captured on lo (filtered by the run's own target address and port) = exactly one packet per datagram, version/IHL 0x45, protocol 17, source = exporter, destination = target, " +
-	"IP total length = 28+n = captured length, UDP length = 8+n, destination port = configured, payload byte-identical; the driver survives; published payloads with mirroring on == with mirroring off, also when a flood of > 1000 datagrams overflows the mirror queue (then only: nothing corrupted, nothing twice); " +
+	"IP total length = 28+n = captured length, UDP length = 8+n, destination port = configured, payload byte-identical; the driver survives; published payloads with mirroring on == with mirroring off, also when templates were learned under one mirror setting and the data arrives under the other (cache kept), and when a flood of > 1000 datagrams overflows the mirror queue (then only: nothing corrupted, nothing twice); " +
 	"non-trivial = a payload within 28 octets of the maximum, or a 4-octet source address, or an empty payload; distinct by hash"
 
 func htons(x uint16) uint16 { return x<<8 | x>>8 }
@@ -118,6 +122,9 @@ func genC16(t *rapid.T, envs map[string]*wire.GenEnv) c16Case {
 	shard, _ := strconv.Atoi(os.Getenv("VERIF_SHARD_INDEX"))
 	c.Target = []byte{127, byte(1 + shard%200), byte(rapid.IntRange(0, 255).Draw(t, "t2")), byte(rapid.IntRange(2, 254).Draw(t, "t3"))}
 	c.Port = rapid.IntRange(1024, 65535).Draw(t, "port")
+	if c.Proto == "ipfix" && c.UDPSize >= 200 {
+		c.Toggle = rapid.SampledFrom([]string{"", "", "off-on", "on-off"}).Draw(t, "toggle")
+	}
 	if c.Proto == "ipfix" && c.UDPSize >= 200 && rapid.IntRange(0, 15).Draw(t, "flood") == 0 {
 		c.Flood = rapid.IntRange(1050, 1400).Draw(t, "floodn")
 	}
@@ -361,7 +368,75 @@ func runC16(c *c16Case) (v verdict, sig string, err error) {
 	if missing > 0 {
 		return v, "missing", fmt.Errorf("%d of %d datagrams were not re-emitted towards %s:%d (payload lengths %v)", missing, len(c.Payloads), target, c.Port, lens(c.Payloads))
 	}
+	if c.Toggle != "" && c.Proto == "ipfix" {
+		if sig, err := c16Toggle(c, d, target); err != nil {
+			return v, sig, err
+		}
+		v.label(true, "mirror-setting-changed-between-templates-and-data")
+	}
 	return v, "", nil
+}
+
+// c16Toggle: templates learned under one mirror setting, data under the other, cache kept in between.
+func c16Toggle(c *c16Case, d *drvClient, target string) (string, error) {
+	replica := newFlowCache("ipfix")
+	var ann, data []drvDatagram
+	want := map[string]int{}
+	for i := 0; i < 6; i++ {
+		tp := wire.Template{ID: uint16(62000 + i), Fields: []wire.Field{{ID: 8, Len: 4, Type: wire.TIPv4}, {ID: 7, Len: 2, Type: wire.TUint16}, {ID: 1, Len: 8, Type: wire.TUint64}}}
+		a := wire.Msg{Proto: "ipfix", Seq: uint32(97000 + i), Time: 1700000002, Domain: 3, Sets: []wire.Set{{Kind: "tpl", Tpls: []wire.Template{tp}}}}
+		m := wire.Msg{Proto: "ipfix", Seq: uint32(98000 + i), Time: 1700000003, Domain: 3, Sets: []wire.Set{{Kind: "data", Tpl: &tp,
+			Recs: []wire.Record{{Vals: []wire.Hex{{10, 7, 0, byte(i)}, {0, byte(80 + i)}, {0, 0, 0, 0, 0, 0, 4, byte(i)}}}}}}}
+		ab, mb := a.Bytes(), m.Bytes()
+		if len(ab) > c.UDPSize || len(mb) > c.UDPSize {
+			continue
+		}
+		ann = append(ann, drvDatagram{Addr: hex.EncodeToString(c.Exporter), Port: 6000 + i, Data: hex.EncodeToString(ab)})
+		data = append(data, drvDatagram{Addr: hex.EncodeToString(c.Exporter), Port: 6100 + i, Data: hex.EncodeToString(mb)})
+		if _, perr := replica.decodeFlow(wire.ExactIP(c.Exporter), ab); perr != nil {
+			return "", fmt.Errorf("harness: %v", perr)
+		}
+		o, perr := sequentialDecode("ipfix", replica, c.Exporter, mb, nil)
+		if perr != nil || !o.published {
+			return "", fmt.Errorf("harness: reference decode of the toggle data failed: %v", perr)
+		}
+		want[o.payload]++
+	}
+	if len(ann) == 0 {
+		return "", nil
+	}
+	first := c.Toggle == "on-off"
+	reqA := drvRequest{Op: "pipeline", Proto: "ipfix", Workers: c.Workers, UDPSize: c.UDPSize, OtherUDPSize: c.OtherUDPSize, ResetCache: true,
+		Mirror: first, MirrorDst: target, MirrorPort: c.Port, Phases: [][]drvDatagram{ann}}
+	reqB := reqA
+	reqB.ResetCache, reqB.Mirror, reqB.Phases = false, !first, [][]drvDatagram{data}
+	for _, req := range []*drvRequest{&reqA, &reqB} {
+		resp, died, diag := d.call(req)
+		if died {
+			drivers.drop(false)
+			return "crash", fmt.Errorf("pipeline (mirroring %v) terminated the process: %s", req.Mirror, diag)
+		}
+		if resp.Error != "" || len(resp.Phases) != 1 {
+			return "", fmt.Errorf("harness: driver error: %s", resp.Error)
+		}
+		if req == &reqB {
+			got := map[string]int{}
+			for _, h := range resp.Phases[0].Published {
+				b, _ := hex.DecodeString(h)
+				got[string(b)]++
+			}
+			for p, n := range want {
+				if got[p] != n {
+					return "toggle", fmt.Errorf("templates learned with mirroring %v, data received with mirroring %v (same cache): %d of %d data messages were published; e.g. missing %.200s",
+						first, !first, len(resp.Phases[0].Published), len(data), p)
+				}
+			}
+			if len(resp.Phases[0].Published) != len(data) {
+				return "toggle", fmt.Errorf("templates learned with mirroring %v, data received with mirroring %v: %d messages published for %d datagrams", first, !first, len(resp.Phases[0].Published), len(data))
+			}
+		}
+	}
+	return "", nil
 }
 
 func lens(ps []wire.Hex) []int {
